@@ -197,6 +197,17 @@ def ofMesg (T : MesgTable) (m : Message) : Outcome Struct :=
 def isExpanded (T : MesgTable) (st : Struct) (num : Nat) : Bool :=
   if num ≥ T.markBound then false else st.state.testBit num
 
+/-- the number is one of the `case` labels of `MarkAsExpandedField` -/
+def eligible (T : MesgTable) (num : Nat) : Bool := T.slots.any fun s => s.num == num && s.canExpand
+
+/-- `MarkAsExpandedField(num, flag)`: refused (`false`, struct unchanged) unless the number is eligible; otherwise the
+bit is cleared (`m.state[pos] &^= bit`) and, if `flag`, set -/
+def markAsExpanded (T : MesgTable) (st : Struct) (num : Nat) (flag : Bool) : Struct × Bool :=
+  if eligible T num then
+    let cleared := st.state ^^^ (st.state &&& (1 <<< num))
+    ({ st with state := if flag then cleared ||| (1 <<< num) else cleared }, true)
+  else (st, false)
+
 /-- one `if valid { … }` block of ToMesg. `fac num` is `options.Factory.CreateField(mesg.Num, num)`. -/
 def emitField (T : MesgTable) (fac : Nat → Field) (o : Options) (st : Struct) (s : Slot) (x : SlotVal) : Option Field :=
   match emit s x with
